@@ -35,7 +35,7 @@ def edge_facts(f, p, j, depth=0):
     facts = set()
     reach = f.reachable()
     x, nxt = p, j
-    for _ in range(24):
+    for _ in range(400):
         sd = _side(f, x, nxt)
         if sd is not None:
             t = f.term(x)
@@ -121,7 +121,7 @@ def atoms(f, D, depth=0):
             out |= atoms(f, arm, depth + 1)
         for p in preds:
             x, nxt = p, bb
-            for _ in range(24):
+            for _ in range(400):
                 t = f.term(x)
                 if t["k"] == "switch" and _side(f, x, nxt) is not None:
                     out |= atoms(f, f.operand(t["discr"], f.end_point(x)), depth + 1)
@@ -185,3 +185,49 @@ def reach_under(f, assign, start=0):
             # unwind edges are not followed
             work.append(s)
     return seen
+
+
+def resolve(f, t, assume, depth=0):
+    """specialise a value term under a partial assignment of boolean atoms: joins whose arms are selected by a decided
+    branch collapse to the selected arm; projections of aggregates are folded"""
+    t = mir.strip_refs(t)
+    if depth > 40 or not isinstance(t, tuple):
+        return t
+    if t[0] == "phi" and isinstance(t[1], tuple) and isinstance(t[1][0], int):
+        reach = f.reachable()
+        preds = [p for p in f.pred[t[1][0]] if p in reach]
+        if len(preds) == len(t[2]):
+            keep = []
+            for p, arm in zip(preds, t[2]):
+                facts = edge_facts(f, p, t[1][0])
+                if any(mir.strip_refs(a) in assume and assume[mir.strip_refs(a)] != tv for a, tv in facts):
+                    continue
+                keep.append(arm)
+            uniq = []
+            for k in keep:
+                r = resolve(f, k, assume, depth + 1)
+                if r == ("unreachable",):
+                    continue
+                if r not in uniq:
+                    uniq.append(r)
+            if not uniq:
+                return ("unreachable",)
+            if len(uniq) == 1:
+                return uniq[0]
+            return ("phi", t[1], tuple(uniq))
+        return t
+    if t[0] == "bin":
+        return (t[0], t[1], resolve(f, t[2], assume, depth + 1), resolve(f, t[3], assume, depth + 1))
+    if t[0] == "un":
+        return (t[0], t[1], resolve(f, t[2], assume, depth + 1))
+    if t[0] == "agg":
+        return (t[0], t[1], tuple(resolve(f, x, assume, depth + 1) for x in t[2]))
+    if t[0] == "call" and len(t) > 2:
+        return (t[0], t[1], tuple(resolve(f, x, assume, depth + 1) for x in t[2])) + tuple(t[3:])
+    if t[0] == "proj":
+        b = resolve(f, t[1], assume, depth + 1)
+        if b[0] == "agg" and isinstance(t[2], tuple) and t[2][0] in ("f", "elem") and len(t[2]) > 1 and \
+                isinstance(t[2][1], int) and t[2][1] < len(b[2]):
+            return b[2][t[2][1]]
+        return (t[0], b, t[2])
+    return t
